@@ -166,11 +166,19 @@ def check_case(bitfield_mod, case, success_clause="auto_placement_should_succeed
             return s
         return bf(**kw)
 
+    shared_sets = {}
+
     def tag_arg(i):
         t = F[i]["tags"]
         if not t:
             return None if style & 2 else []
-        return " ".join(t) if style & 2 else (set(t) if style & 4 else list(t))
+        if style & 2:
+            return " ".join(t)
+        if style & 4:
+            # a set object of the caller's own, the SAME object for every field that is given these tags (ROUTING = {"routing"};
+            # add_field(..., tags=ROUTING) twice): what the bit field does with one field's tags must not reach the other's
+            return shared_sets.setdefault(frozenset(t), set(t))
+        return list(t)
 
     bf = BitField(L)
     defined = []
